@@ -2,7 +2,7 @@
    payload conventions: order = list of classes (lists of N); profile = list of orders (instance.orders);
    alts / axis / D = list of N; V = list of indices into the profile; k = int. *)
 From Coq Require Import List ZArith NArith String.
-From PrefVerif Require Import Lib.Val Model.SP Model.Deletion Model.ILPEnc Model.ELPDP.
+From PrefVerif Require Import Lib.Val Model.SP Model.Deletion Model.ILPEnc Model.ELPDP Model.MaxAxis.
 Import ListNotations.
 Open Scope string_scope.
 
@@ -70,8 +70,11 @@ Definition op_elp_approx (v : val) : val :=
   eresult (elist (elist eN))
           (k_alt_partition_approx std_pair_first std_ext_order (d_alts (dnth 0 v)) (d_votes (dnth 1 v))).
 
+(* (alts votes) -> nat : the fast verified reference for the alternative-deletion optimum of a strict profile *)
+Definition op_fast_min_alt (v : val) : val := enat (fast_min_alt (d_alts (dnth 0 v)) (d_votes (dnth 1 v))).
+
 Definition ops : optable :=
   [ ("c12.min_alt", op_min_alt); ("c12.min_vot", op_min_vot); ("c12.cert_alt", op_cert_alt);
     ("c12.cert_vot", op_cert_vot); ("c12.core_alt", op_core_alt); ("c12.core_vot", op_core_vot);
     ("c12.alt_ok", op_alt_ok); ("c12.vot_ok", op_vot_ok); ("c12.ilp_constraints", op_ilp_constraints);
-    ("c12.elp", op_elp); ("c12.elp_approx", op_elp_approx) ].
+    ("c12.elp", op_elp); ("c12.elp_approx", op_elp_approx); ("c12.fast_min_alt", op_fast_min_alt) ].
